@@ -116,6 +116,7 @@ def run():
     ck.cov['evaluations'] = nh + r['generated']
     ck.cov['distinct_nontrivial'] = len(entry) + r['distinct']
     ck.cov['rule'] = 'entry MXCSR = rc(4) x FTZ(2) x DAZ(2) x mask patterns x flag patterns, spread over VM configurations and versions; single calls and first/next/last pipelines with the caller changing its word between calls'
+    ck.cov['rule'] += '; plus: x87 control word around every hash, VMs constructed under non-default words'
     ck.assumptions += ['x86-64 MXCSR only (the fenv variant is exercised by C17)', 'harness code between calls runs under the default word; the word the library left is reinstated right before the next call']
     if not res['rejected']:
         shutil.rmtree(wd, ignore_errors=True)
